@@ -33,6 +33,9 @@ BODIES = {
     'brace-bait': [b'if (a)', b'   b = 1;', b'else', b'   c = 2;', b'while (x) y--;', b'return (1);', b'int short unsigned x;;;', b'enum { A, B };'],
     'include-bait': [b'#include "b.h"', b'#include "a.h"', b'#include "a.h"', b'import z;', b'import a;', b'using B;', b'using A;'],
     'continuations': [b'#define   SWAP(a,b)   \\', b'   do { t = a;   \\', b'\ta = b; b = t; } while (0)', b'x = 1 +   \\', b'    2;', b'// c   \\', b'   still'],
+    'enable-text-in-literal': [b'\t  puts("see *INDENT-ON* below");', b'   s  =  "END-NOFMT" ;', b"  t  =  'fmt:on-here' ;", b'    u = "#pragma endasn";'],
+    'enable-text-after-code': [b'   x  =  1 ;  /* *INDENT-ON* */', b'  /* foo */   y  =  2 ;  /* *INDENT-ON* */', b'\tz = 3; // *INDENT-ON*',
+                               b'   w = 4; /* END-NOFMT */', b'  /* bar */ v = 5; // fmt:on-here'],
     'single': [b'x'],
     'single-space-line': [b' '],
 }
@@ -166,12 +169,14 @@ def insertion_points(data, lang):
 
 
 def compose(host, k, style, body, n=0, terminated=True):
-    """Insert the region before physical line k of host (LF host).  -> (bytes, off, on, cfg, so, se)."""
+    """Insert the region before physical line k of host (LF host).  -> (bytes, off, on, cfg, so, se).
+    terminated: True | False (region runs to the end of the file, which ends in a line terminator) | 'bare' (... and the last region
+    line is the last byte of the file)."""
     hl = host.split(b'\n')
     off, on, cfg, so, se = markers(style, n)
-    new = hl[:k] + [off] + list(body) + ([on] + hl[k:] if terminated else [])
+    new = hl[:k] + [off] + list(body) + ([on] + hl[k:] if terminated is True else [])
     x = b'\n'.join(new)
-    if not terminated and not x.endswith(b'\n') and body and body[-1].strip(b' \t'):
+    if terminated is False and not x.endswith(b'\n') and body and body[-1].strip(b' \t'):
         x += b'\n'
     return x, cfg, so, se
 
@@ -321,6 +326,7 @@ def region_oracle(x_body, out, so, se, terminated):
 
 def _case(t):
     cid, hostspec, lang, k, style, bodyname, alt_name, assign, terminated = t
+    closed = terminated is True
     host = HOSTS[hostspec[1]] if hostspec[0] == 'host' else corpus.read(hostspec[1])
     host = SPLIT.sub(b'\n', host)
     body = INVALID_UTF8_BODY if bodyname == 'invalid-utf8' else BODIES[bodyname]
@@ -331,7 +337,7 @@ def _case(t):
         body = [l for l in host.split(b'\n')]
         if body and body[-1] == b'':
             body = body[:-1]
-        host = b'int before_region;\n' + (b'int after_region;\n' if terminated else b'')
+        host = b'int before_region;\n' + (b'int after_region;\n' if closed else b'')
         k = 1
     x, mcfg, so, se = compose(host, k, style, body, 0, terminated)
     K = mcfg + cfggen.text(assign)
@@ -347,7 +353,7 @@ def _case(t):
         return res
     res['nontrivial'] = f.out != x
     res['lines'] = len(body)
-    v, parts = region_oracle(body, f.out, so, se, terminated)
+    v, parts = region_oracle(body, f.out, so, se, closed)
     viols = list(v)
     if parts == 'reformatted':
         res['status'] = 'marker-reformatted'
@@ -366,7 +372,7 @@ def _case(t):
             if g.out is None:
                 viols.append(('opacity-status', 'replacing the region text changes the exit status: %s' % g.res.how()))
             else:
-                p2 = split_output(g.out, so, se, terminated)
+                p2 = split_output(g.out, so, se, closed)
                 if p2 == 'reformatted':
                     pass
                 elif p2 is None:
@@ -392,7 +398,7 @@ def _case(t):
                 ff = run(x, sub)
                 if ff.out is None:
                     return False
-                vv, _ = region_oracle(body, ff.out, so, se, terminated)
+                vv, _ = region_oracle(body, ff.out, so, se, closed)
                 return any(kk == kind for kk, _ in vv)
             if kind.startswith('region'):
                 small = minimise.minimise_cfg(assign, pred, max_runs=40)
@@ -452,6 +458,18 @@ def check(ctx):
             cn = fr.choice(sorted(cur))
             tasks.append(('start:%s:%s:%s' % (lang, bn, cn), ('host', lang), lang, 0, fr.choice(lang_styles(lang)), bn,
                           fr.choice([n for n in bodynames if n != bn]), cur[cn], True))
+    # regions that run to the end of the file: every host x every body, file ending with and without a line terminator
+    eofcfg = {'default': {}, 'eof-remove': {'nl_end_of_file': 'remove'}, 'blank': cur['blank'], 'indent': cur['indent']}
+    for lang, host in sorted(HOSTS.items()):
+        pts = insertion_points(host, lang)
+        for bn in bodynames:
+            for mode in (False, 'bare'):
+                for cn in sorted(eofcfg):
+                    fr = fixed_rng(PROP, 'eof:%s:%s:%s:%s' % (lang, bn, mode, cn))
+                    if quick and fr.random() > 0.4:
+                        continue
+                    tasks.append(('eof:%s:%s:%s:%s' % (lang, bn, mode, cn), ('host', lang), lang, fr.choice(pts), fr.choice(lang_styles(lang)), bn,
+                                  fr.choice([n for n in bodynames if n != bn]), eofcfg[cn], mode))
     # corpus hosts: fixed universe of (file, position, style, body, config draw); the seed selects members
     U = 60000
     ctx.extra['corpus_universe'] = U
